@@ -399,7 +399,7 @@ def r19_palette_sized_by_count(ctx):
     """'Turning logging on never aborts the run': a table indexed by the running index of a loop over a configured count (patients to plot)
     has to be as long as that count for every configuration.  A fixed palette (the `.colors` of a qualitative colormap, a literal list)
     indexed by the bare loop index raises IndexError as soon as the configured count exceeds its length."""
-    ctx.rule("C11.R19", "in the fit-logging code a table indexed by a loop index is not a fixed-length palette (sized by a call taking the count, cycled, or indexed modulo its length)", 3)
+    ctx.rule("C11.R19", "in the fit-logging code a table indexed by a loop index is not a fixed-length palette (sized by a call taking the count, cycled, or indexed modulo its length)", 1)
     n = 0
     for f in ctx.ix.iter_funcs():
         if f.mod != FOM:
@@ -425,8 +425,9 @@ def r19_palette_sized_by_count(ctx):
             ctx.check(not fixed, "C11.R19", f, sub, f"`{sub.value.id}` is computed (not a fixed-length palette) where it is indexed by the loop index `{sub.slice.id}`",
                       f"`{U(sub)}`: `{sub.value.id}` is the fixed-length table `{U(fixed[0])[:60] if fixed else ''}` indexed by the bare loop index `{sub.slice.id}`: a configured count larger than the table "
                       "raises IndexError in the logging call and aborts the fit", construct=f"{f.qual}: {U(sub)}")
-    if n < 3:
-        raise AnalysisError("C11.R19", f"only {n} loop-indexed table(s) found in the fit-logging code, 3 confirmed by hand (anchor vanished?)")
+    # zero loop-indexed tables is a legitimate state of the code (e.g. `zip(..., colors)`): the rule forbids a construct, it does not demand one;
+    # the `fixed-palette` variant of the catalogue shows on every thorough run that the rule still matches
+    ctx.ok("C11.R19", (FOM, "FitOutputManager"), None, f"{n} loop-indexed table(s) in the fit-logging code, none a fixed-length palette", construct="loop-indexed tables")
 
 
 def r10_no_bare_squeeze_in_logging(ctx):
